@@ -81,3 +81,40 @@ Example ex_inbound_rejects : inbound_ok (drop_first (is_out "g" "del") ex_histor
 Proof. vm_compute. reflexivity. Qed.
 Example ex_udp_rejects : udp_ok (statics ex_input) (drop_first (is_out "sys" "sendto") ex_history) = false.
 Proof. vm_compute. reflexivity. Qed.
+
+(* WriteTo a writer with a byte budget: five bytes are left in the ring by a first OnTraffic, four
+   more arrive in the read buffer; `h writeto 3` first takes part of the ring only ([1;2;3], error),
+   then the rest of the ring and one byte of the read buffer ([4;5;6], error); an unlimited WriteTo
+   takes what remains.  The handler-visible lines are as expected and the inbound checker accepts. *)
+Definition wt_input : list line :=
+ [("cfg", [AInt 0; AInt 0; AInt 8; AInt 3; AInt 1024; AInt 256]);
+  ("listen", [AInt 4; AInt 1]);
+  ("accepted", [AInt 7]);
+  ("wait", [AInt 3; AInt 1]);
+  ("r", [ASym "epctl"; AInt 0]);
+  ("hret", [ASym "none"]);
+  ("wait", [AInt 7; AInt 1]);
+  ("r", [ASym "read"; AInt 5; ABytes [1; 2; 3; 4; 5]]);
+  ("hret", [ASym "none"]);
+  ("wait", [AInt 7; AInt 1]);
+  ("r", [ASym "read"; AInt 4; ABytes [6; 7; 8; 9]]);
+  ("h", [ASym "writeto"; AInt 3]);
+  ("h", [ASym "inbuf"]);
+  ("h", [ASym "writeto"; AInt 3]);
+  ("h", [ASym "inbuf"]);
+  ("h", [ASym "writeto"]);
+  ("h", [ASym "inbuf"]);
+  ("hret", [ASym "none"])].
+Definition wt_history : list ev := match run_history wt_input with Some t => t | None => [] end.
+Definition is_hr (e : ev) : bool := match e with EOut ("hr", _) => true | _ => false end.
+
+Example ex_writeto_partial :
+  filter is_hr wt_history =
+    [EOut ("hr", [AInt 0; ASym "writeto"; ABytes [1; 2; 3]; AInt 3; ASym "err"]);
+     EOut ("hr", [AInt 0; ASym "inbuf"; AInt 6]);
+     EOut ("hr", [AInt 0; ASym "writeto"; ABytes [4; 5; 6]; AInt 3; ASym "err"]);
+     EOut ("hr", [AInt 0; ASym "inbuf"; AInt 3]);
+     EOut ("hr", [AInt 0; ASym "writeto"; ABytes [7; 8; 9]; AInt 3; ASym "nil"]);
+     EOut ("hr", [AInt 0; ASym "inbuf"; AInt 0])] /\
+  inbound_ok wt_history = true /\ outbound_ok wt_history = true.
+Proof. vm_compute. repeat split; reflexivity. Qed.
